@@ -165,6 +165,66 @@ def repeat(x, n, axis=0):
     return Tensor((_dim(n),) + tuple(x.shape[1:]), lambda idx: x.fn((z3.IntVal(0),) + tuple(idx[1:])))
 
 
+CumF = z3.Function("CumSum", z3.ArraySort(z3.IntSort(), z3.RealSort()), z3.IntSort(), z3.RealSort())
+SearchF = z3.Function("SearchSortedLeft", z3.ArraySort(z3.IntSort(), z3.RealSort()), z3.IntSort(), z3.RealSort(), z3.IntSort())
+CALLS = {"cumsum": [], "searchsorted": [], "logsumexp": [], "concatenate": []}
+
+
+def cumsum(x, axis=None):
+    from ..tensor import Tensor, _toreal
+
+    Assumed.note("jnp.cumsum(w)[i] = sum_{k<=i} w[k]")
+    if not isinstance(x, Tensor) or x.ndim != 1:
+        raise EngineLimit("cumsum of non-vector")
+    i = z3.Int("cum!i")
+    lam = z3.Lambda([i], _toreal(x.fn((i,))))
+    out = Tensor(x.shape, lambda idx: CumF(lam, idx[0]))
+    CALLS["cumsum"].append({"x": x, "out": out})
+    return out
+
+
+def searchsorted(a, v, side="left"):
+    from ..tensor import Tensor, _toreal, _dterm
+
+    Assumed.note("jnp.searchsorted(a, v, side='left')[j] = #{i : a[i] < v[j]} for sorted a")
+    if side != "left":
+        raise EngineLimit("searchsorted side=%r" % side)
+    i = z3.Int("ss!i")
+    lam = z3.Lambda([i], _toreal(a.fn((i,))))
+    n = _dterm(a.shape[0])
+    out = Tensor(v.shape, lambda idx: SearchF(lam, n, _toreal(v.fn(idx))))
+    CALLS["searchsorted"].append({"a": a, "v": v, "side": side, "out": out})
+    return out
+
+
+def logsumexp(x, axis=None):
+    from ..tensor import Tensor, mk_lse
+
+    if isinstance(x, Sym):
+        return x
+    if not isinstance(x, Tensor) or x.ndim != 1 or axis not in (None, 0, -1):
+        if isinstance(x, Tensor) and x.ndim == 2 and axis in (0, 1, -1):
+            return x._reduce(axis, mk_lse)
+        raise EngineLimit("logsumexp of rank-%s" % getattr(x, "ndim", "?"))
+    r = Sym(mk_lse(x.shape[0], lambda i: x.fn((i,))))
+    CALLS["logsumexp"].append({"x": x, "out": r})
+    return r
+
+
+def concatenate(parts, axis=0):
+    from ..tensor import Tensor, _dterm, _dim
+
+    Assumed.note("jnp.concatenate along axis 0 stacks the parts in order")
+    if axis != 0 or len(parts) != 2:
+        raise EngineLimit("concatenate beyond two parts along axis 0")
+    a, b = parts
+    na = _dterm(a.shape[0])
+    shape = (_dim(na + _dterm(b.shape[0])),) + tuple(a.shape[1:])
+    out = Tensor(shape, lambda idx: z3.If(idx[0] < na, a.fn(idx), b.fn((idx[0] - na,) + tuple(idx[1:]))))
+    CALLS["concatenate"].append({"parts": parts, "out": out})
+    return out
+
+
 def zeros(shape, dtype=None):
     from ..tensor import Tensor
 
@@ -188,7 +248,7 @@ def ones(shape, dtype=None):
 def namespace(**extra):
     ns = types.SimpleNamespace(
         array=array, asarray=asarray, shape=shape, ndim=ndim, where=where, sum=sum, any=any,
-        minimum=minimum, maximum=maximum, log=log, exp=exp, add=add, ndarray=object, arange=arange, zeros=zeros, ones=ones, mean=mean, repeat=repeat, nan=float('nan'),
+        minimum=minimum, maximum=maximum, log=log, exp=exp, add=add, ndarray=object, arange=arange, zeros=zeros, ones=ones, mean=mean, repeat=repeat, nan=float('nan'), cumsum=cumsum, searchsorted=searchsorted, concatenate=concatenate,
         float32="float32", int32="int32", bool_="bool", pi=3.141592653589793,
     )
     for k, v in extra.items():
